@@ -31,6 +31,7 @@ from sigma.rule import SigmaDetectionItem, SigmaRule
 from sigma.correlations import SigmaCorrelationRule
 from sigma.processing.transformations.base import PreprocessingTransformation, Transformation
 from sigma.processing.postprocessing import (
+    NestedQueryPostprocessingTransformation,
     QueryPostprocessingTransformation,
     query_postprocessing_transformations,
 )
@@ -368,6 +369,23 @@ class ProcessingItemBase:
             params["vars_allowed_paths"] = vars_allowed_paths
         if issubclass(transformation_class, ExternalSourceBaseTransformation):
             params["allow_external_sources"] = allow_external_sources
+        if transformation_class is NestedQueryPostprocessingTransformation and isinstance(
+            params.get("items"), list
+        ):
+            # The nested items are subject to the same template variable settings as the item
+            # that contains them, whatever the definition says.
+            params["items"] = [
+                (
+                    QueryPostprocessingItem.from_dict(
+                        item,
+                        allow_template_vars=allow_template_vars,
+                        vars_allowed_paths=vars_allowed_paths,
+                    )
+                    if isinstance(item, dict)
+                    else item
+                )
+                for item in params["items"]
+            ]
         try:
             return transformation_class(**params)
         except (SigmaConfigurationError, TypeError) as e:
